@@ -37,8 +37,8 @@ RULE = (
     "a reload, or a DataFrame with shuffle, or pre-existing data."
 )
 ASSUMPTIONS = [
-    "constants are given to the Runner (sow-time extra constants are unknown "
-    "to the reaper by design and are not generated)",
+    "constants are given to the Runner or, for one sweep, to the sow call / "
+    "the direct call",
     "variables are compared after transposing to the direct run's dimension "
     "order (crops sort the swept arguments by name)",
 ]
@@ -155,6 +155,16 @@ def run_case(case):
         fm, rm, spec, consts, var_coords, xobj = make(main)
         ft, rt, _, _, _, _ = make(twin)
         extra = {**desc["resources"], **consts}
+        # a constant given for this sweep only (at sow / with the direct
+        # call), overriding what the runner has stored
+        skw = {}
+        plain_ = sorted(k for k in desc["constants"]
+                        if k not in desc["resources"])
+        if case.get("sow_consts") and plain_ and \
+                farmer_kind in ("runner", "runner_df", "harvester"):
+            skw = {"constants": {plain_[0]: "for-this-sweep"}}
+            consts = dict(consts, **skw["constants"])
+            extra = dict(extra, **skw["constants"])
 
         def shifted(v):
             """a value of the same family that is not swept"""
@@ -280,11 +290,11 @@ def run_case(case):
                 crop.sow_samples(case["n"], verbosity=0)
             elif case["mode"] == "combos":
                 if case.get("ctor_shuffle"):
-                    crop.sow_combos(combos, verbosity=0)   # no shuffle given
+                    crop.sow_combos(combos, verbosity=0, **skw)  # no shuffle
                 else:
                     crop.sow_combos(combos, shuffle=case.get("shuffle",
                                                              False),
-                                    verbosity=0)
+                                    verbosity=0, **skw)
             elif case.get("case_dicts"):
                 # the cases written as dicts, their keys in varying order
                 dcs = []
@@ -292,10 +302,12 @@ def run_case(case):
                     it_ = list(zip(case_args, c_))
                     r_ = (i_ + 1) % len(it_)
                     dcs.append(dict(it_[r_:] + it_[:r_]))
-                crop.sow_cases(None, dcs, combos=sub_combos, verbosity=0)
+                crop.sow_cases(None, dcs, combos=sub_combos, verbosity=0,
+                               **skw)
             else:
                 crop.sow_cases(None if own_args else tuple(case_args),
-                               cases_in, combos=sub_combos, verbosity=0)
+                               cases_in, combos=sub_combos, verbosity=0,
+                               **skw)
         B = len(crops.batch_ids(main, "c6"))
         reloaded = False
         if case.get("reload_before_grow"):
@@ -360,24 +372,25 @@ def run_case(case):
             elif farmer_kind == "harvester":
                 if case["mode"] == "combos":
                     ft.harvest_combos(combos, overwrite=case.get("overwrite"),
-                                      verbosity=0)
+                                      verbosity=0, **skw)
                 else:
                     ft.harvest_cases(cases_in,
                                      fn_args=None if own_args else
                                      tuple(case_args),
                                      combos=sub_combos,
                                      overwrite=case.get("overwrite"),
-                                     verbosity=0)
+                                     verbosity=0, **skw)
                 want = ft.last_ds
             else:
                 kw = {"to_df": True} if to_df else {}
                 if case["mode"] == "combos":
-                    want = rt.run_combos(combos, verbosity=0, **kw)
+                    want = rt.run_combos(combos, verbosity=0, **kw, **skw)
                 else:
                     want = rt.run_cases(cases_in,
                                         fn_args=None if own_args else
                                         tuple(case_args),
-                                        combos=sub_combos, verbosity=0, **kw)
+                                        combos=sub_combos, verbosity=0, **kw,
+                                        **skw)
         except Exception as e:
             direct_exc = e
 
@@ -466,7 +479,7 @@ def run_case(case):
             r2, spec2, _, _, _ = build_runner(x, desc, epoch=1)
             with under_test("second crop at the same location"):
                 c2 = r2.Crop(name="c6", parent_dir=main, **bkw)
-                c2.sow_combos(combos, verbosity=0)
+                c2.sow_combos(combos, verbosity=0, **skw)
                 if case.get("reload_before_grow"):
                     c2 = x.Crop(name="c6", parent_dir=main)
                 c2.grow_missing()
@@ -516,7 +529,8 @@ def strategy(draw):
                                                   True])),
             "sibling": draw(st.sampled_from([False, False, True])),
             "case_dicts": draw(st.booleans()),
-            "runner_fn_args": draw(st.sampled_from([False, False, True]))}
+            "runner_fn_args": draw(st.sampled_from([False, False, True])),
+            "sow_consts": draw(st.sampled_from([False, False, True]))}
     if case["dname"].endswith(".dmp"):
         case["engine"] = "joblib"
     if farmer == "sampler":
